@@ -262,7 +262,8 @@ def load(f, **options):  # type: (typing.IO, **typing.Any) -> canmatrix.CanMatri
                 offset = float_factory(offset)
 
                 if len(temp_array) > 12:
-                    receiver = temp_array[12].split(',')
+                    # the receivers are the remaining comma separated fields of the line
+                    receiver = [rec for rec in temp_array[12:] if rec]
                 else:
                     receiver = []
 
